@@ -262,6 +262,18 @@ def run(ctx: core.Ctx) -> int:
                construct="export delegation", msg="export_python does not export the fitted estimator")
     finit = normast.Normaliser(normast.class_resolver(mod, fm, exclude={"_fit_model_impl"}), consts=normast.module_constants(mod)).function(
         core.need(core.find_func(fm, "__init__"), "FitModelState.__init__"))
+    # GET-FALSY: for the grid dict `not PS.get(k)` is `k not in PS or not PS[k]` (a missing key reads as None)
+    class _GetFalsy(ast.NodeTransformer):
+        def visit_UnaryOp(self, n):
+            self.generic_visit(n)
+            c = n.operand
+            if isinstance(n.op, ast.Not) and isinstance(c, ast.Call) and isinstance(c.func, ast.Attribute) and c.func.attr == "get" and len(c.args) == 1 and not c.keywords \
+                    and ast.unparse(c.func.value) in ("self.parameter_space", "parameter_space"):
+                import copy as _cp
+                return ast.copy_location(ast.BoolOp(ast.Or(), [ast.Compare(_cp.deepcopy(c.args[0]), [ast.NotIn()], [_cp.deepcopy(c.func.value)]),
+                                                               ast.UnaryOp(ast.Not(), ast.Subscript(_cp.deepcopy(c.func.value), _cp.deepcopy(c.args[0]), ast.Load()))]), n)
+            return n
+    finit = ast.fix_missing_locations(_GetFalsy().visit(finit))
     _fa, FR = astpat.resolver(finit)
     hits = [h_ for h_ in astpat.find("""
 for _K_, _D_ in __E__.items():
